@@ -38,6 +38,7 @@ FLOOR = 64.0
 QUAD_REAL = 256.0
 QUAD_MCX = 64.0
 K_CONS = 1e4
+C_X = 1e3
 OVERFLOW = 1e150
 H_METHODS = ['central', 'central2', 'forward', 'backward', 'complex', 'multicomplex']
 REAL_STEP = ('central', 'central2', 'forward', 'backward')
@@ -85,7 +86,8 @@ def c04_case(draw):
         wrap = dict(a=[round(draw(st.floats(-2, 2)), 3), round(draw(st.floats(0.1, 2)), 3)],
                     b=[round(draw(st.floats(-2, 2)), 3), round(draw(st.floats(-2, 2)), 3)])
     return dict(base, method=method, hd_method=hd_method, hd_order=hd_order, wrap=wrap,
-                step=draw(mv.step_specs(method)), hd_step=draw(mv.step_specs(hd_method)),
+                step=draw(mv.step_specs(method, kinds=mv.GEO_KINDS)),
+                hd_step=draw(mv.step_specs(hd_method, kinds=mv.GEO_KINDS)),
                 xform=draw(st.sampled_from(['list', 'array'])))
 
 
@@ -123,7 +125,7 @@ class C04(Prop):
 
     def __init__(self):
         self.constants = {'FLOOR_eps_multiple': FLOOR, 'QUAD_REAL_eps_multiple': QUAD_REAL,
-                          'QUAD_MCX_eps_multiple': QUAD_MCX, 'K_CONS': K_CONS, 'TOL_H': dict(TOL_H),
+                          'QUAD_MCX_eps_multiple': QUAD_MCX, 'K_CONS': K_CONS, 'C_X': C_X, 'TOL_H': dict(TOL_H),
                           'TOL_HD': dict(TOL_HD)}
 
     def strategy(self, tier):
@@ -134,7 +136,7 @@ class C04(Prop):
         try:
             self._check(case, ctx)
         except Violation as v:
-            if ASSUME_KNOWN and known_class(self.finding_key(case, v)):
+            if ASSUME_KNOWN and (known_class(self.finding_key(case, v)) or mcx_order_class(self.finding_key(case, v))):
                 raise Skip('dev switch: reported multicomplex precision-loss class')
             raise
 
@@ -144,9 +146,9 @@ class C04(Prop):
             k = dict(method=method, full_output=True)
             k.update(kw)
             k.update(opts)
-            return cls(f, step=step, **k)
+            return mv.geo_fixup(cls(f, step=step, **k), spec, hessian=cls is nd.Hessian)
         with ctx.lib('no-exception', 'constructing %s' % what):
-            res = mv.fit_steps(build, x_arr, an.reach_limit(), width, spec.get('u', 0.0))
+            res = mv.fit_steps(build, x_arr, an.reach_limit(), width, spec.get('u', 0.0), frac=mv.geo_frac(spec))
         if isinstance(res, str):
             ctx.skip(res)
         if an.max_majorant(width * max(float(np.max(t)) for t in res[1])) > OVERFLOW:
@@ -205,6 +207,7 @@ class C04(Prop):
                     ctx.count('steps scaled into the certified disc')
                 hs = np.array([np.ravel(s) for s in steps])
                 fsH = final_step(info, (n, n))
+                self._aux = dict(cls='Hessian', order=None, ratio=ratio, amp=4.0)
                 boundsH = self._compare(ctx, case, an, H, Hex, hs, method, None, len(steps), 'hessian', quad, fsH)
                 # ---------------- Hessdiag ------------------------------------------------
                 hm, ho = case['hd_method'], case['hd_order']
@@ -227,6 +230,8 @@ class C04(Prop):
                                     target='hessdiag')
                 dhs = np.array([np.ravel(s) for s in dsteps])
                 fsD = final_step(dinfo, (n,))
+                self._aux = dict(cls='Hessdiag', order=ho, ratio=dratio,
+                                 amp=max(1.0, float(np.sum(np.abs(dd.fd_rule.rule(dratio))))))
                 boundsD = self._compare(ctx, case, an, hd, np.diag(Hex), dhs, hm, ho, k_est, 'hessdiag', quad, fsD)
                 # ---------------- consistency ----------------------------------------------
                 for j in range(n):
@@ -340,23 +345,53 @@ class C04(Prop):
                     continue
                 floor = FLOOR * EPS * (abs(ex) + (n + 2) * (an.cond(0, (j, k)) + (an.noise(0) / hf if dform else 0.0)))
                 if dform and fstep is not None:
-                    # rounding of the (up to four) function values at the reported steps: eps |values| / (h_j h_k)
+                    # rounding of the (up to four) function values at the reported steps: eps |values| / (h_j h_k);
+                    # the reported step is the largest of the t+1 steps a Richardson-extrapolated estimate combines
+                    t_x = max(0, min(2, k_est - 1))
+                    rr = float(abs(self._aux['ratio'])) if self._aux else 1.0
+                    hft = max(hf / max(rr, 1.0) ** (2 * t_x), hh)
                     Mf = float(an.majorant(0, (j, k), [min(w * math.sqrt(hf), an.reach_limit((j, k)), mv.R_CAP)])[0])
                     if math.isfinite(Mf):
-                        floor += FLOOR * EPS * 4.0 * Mf / hf
+                        floor += FLOOR * EPS * 4.0 * Mf / hft
                 excess = max(err - floor, 0.0)
                 ratio = excess / S if S > 0 else (0.0 if excess == 0 else math.inf)
                 ctx.track('err/S2|%s%s' % (label, self._kc if method == 'multicomplex' else ''), ratio,
                           dict(prog=mv.describe(case['prog']), x=x, j=j, k=k, lib=lv, exact=ex, S=S,
                                step=case['step'] if target == 'hessian' else case['hd_step'],
                                wrap=case.get('wrap')))
-                if tol is None or CALIBRATE:
+                b = math.inf
+                # extrapolated-order: Richardson-aware unit with the documented orders (multivar.extrapolated_unit)
+                if k_est >= 2:
+                    aux = self._aux
+                    ux = mv.extrapolated_unit(an, aux['cls'], method, aux['order'] or 2, 0, (j, k),
+                                              [hs[:, j]] if j == k else [hs[:, j], hs[:, k]], k_est, aux['ratio'], w,
+                                              dform, aux['amp'])
+                    if ux is not None and ux[0] > 0 and math.isfinite(ux[0]):
+                        U, which, t = ux
+                        rx = excess / U
+                        xlabel = '%s|%s|%s|%s' % (target, method, bucket, 'geo' if spec['kind'] == 'geo' else cfg)
+                        if method == 'multicomplex' and (order or 0) >= 4:
+                            xlabel += '|mcx-order>=4'
+                        ctx.track('x-order err/U|%s%s' % (xlabel, self._kc if method == 'multicomplex' else ''), rx,
+                                  dict(prog=mv.describe(case['prog']), x=x, j=j, k=k, lib=lv, exact=ex, U=U, unit=which,
+                                       step=spec, k_est=k_est, order=order))
+                        if cfg == 'user' and spec['kind'] == 'geo':
+                            ctx.count('x-order asserted on a short geometric user sequence|%s|%s' % (target, method))
+                        if not CALIBRATE:
+                            b = C_X * U + floor
+                            if rx > C_X:
+                                raise Violation('extrapolated-order', '%s[%d,%d]=%r exact %r: |err|=%.3g > C_X(%g)*U(%.3g, %s '
+                                                'unit, t=%d, k_est=%d)+floor(%.3g) (method=%s)'
+                                                % (target, j, k, lv, ex, err, C_X, U, which, t, k_est, floor, method),
+                                                target=target, j=j, k=k, ratio=rx, k_est=k_est)
+                if tol is not None and not CALIBRATE:
+                    b = min(b, tol * S + floor)
+                    if ratio > tol:
+                        raise Violation('envelope', '%s[%d,%d]=%r exact %r: |err|=%.3g > tol(%g)*S_2(%.3g)+floor(%.3g) '
+                                        '(method=%s)' % (target, j, k, lv, ex, err, tol, S, floor, method),
+                                        target=target, j=j, k=k, ratio=ratio)
+                if not math.isfinite(b):
                     continue
-                b = tol * S + floor
-                if ratio > tol:
-                    raise Violation('envelope', '%s[%d,%d]=%r exact %r: |err|=%.3g > tol(%g)*S_2(%.3g)+floor(%.3g) '
-                                    '(method=%s)' % (target, j, k, lv, ex, err, tol, S, floor, method),
-                                    target=target, j=j, k=k, ratio=ratio)
             if diag_only:
                 bounds[j] = b
             else:
@@ -375,7 +410,8 @@ class C04(Prop):
                'container': case['prog']['container'], 'complex_f': case.get('wrap') is not None,
                'n': case['prog']['n'], 'step_kind': case['step']['kind'],
                'exception': v.details.get('exception'), 'where': v.details.get('where'),
-               'ops': [], 'negative_real_part': False, 'tanh_arg_over_300': False}
+               'ops': [], 'negative_real_part': False, 'tanh_arg_over_300': False,
+               'order': case['hd_order'] if target == 'hessdiag' else None}
         if target == 'consistency' and 'multicomplex' in (case['method'], case['hd_method']):
             key['method'] = 'multicomplex'
         try:
@@ -406,9 +442,17 @@ def difference_forming(method):
     return method != 'multicomplex'
 
 
+def mcx_order_class(key):
+    """multicomplex with order >= 4: the library's Richardson step assumes a leading error h^order although the
+    multicomplex quotient is O(h^2) whatever `order` says (reported; e.g. Hessdiag(exp, method='multicomplex',
+    order=4, steps 0.2, 0.1, 0.05) is 6e-4 off, order=2 3e-9)."""
+    return key.get('clause') == 'extrapolated-order' and key.get('method') == 'multicomplex' \
+        and (key.get('order') or 0) >= 4
+
+
 def known_class(key):
     """The multicomplex precision-loss classes already reported to the lead (F9 / F11 of DESIGN 7)."""
-    if key.get('method') != 'multicomplex' or key.get('clause') not in ('envelope', 'consistency', 'finite'):
+    if key.get('method') != 'multicomplex' or key.get('clause') not in ('envelope', 'extrapolated-order', 'consistency', 'finite'):
         return False
     ops = set(key.get('ops') or [])
     if ops & set(F9_OPS):
